@@ -479,24 +479,29 @@ func ruleC11Only(p *Prog, a *Anchors, r *Report) {
 		return
 	}
 	name := p.FuncName(f)
+	// the context may be built by private helpers of the node (buildContext …): they are looked into as well; a guard
+	// may then also sit on the way to the helper's call
+	helpers := c11Helpers(p, f)
 	notOnly := func(c ssa.Value, pol bool) bool { return !pol && loadsField(c, "tagIncludeNode", "only") }
 	var pubPriv [2]bool
-	for _, c := range callsTo(f, update) {
-		src := c.Common().Args[1]
-		which := ""
-		if loadsField(src, "ExecutionContext", "Public") {
-			which = "Public"
-			pubPriv[0] = true
-		} else if loadsField(src, "ExecutionContext", "Private") {
-			which = "Private"
-			pubPriv[1] = true
-		} else {
-			continue
-		}
-		if Guarded(c.(ssa.Instruction), notOnly) {
-			r.OK(name+":copy "+which, p.InstrPos(c.(ssa.Instruction)), "copied only on the !only edge")
-		} else {
-			r.Bad(name+":copy "+which, p.InstrPos(c.(ssa.Instruction)), "the includer's %s variables are copied even when `only` is given", which)
+	for _, g := range helpers {
+		for _, c := range callsTo(g, update) {
+			src := c.Common().Args[1]
+			which := ""
+			if loadsField(src, "ExecutionContext", "Public") {
+				which = "Public"
+				pubPriv[0] = true
+			} else if loadsField(src, "ExecutionContext", "Private") {
+				which = "Private"
+				pubPriv[1] = true
+			} else {
+				continue
+			}
+			if guardedUp(p, f, c.(ssa.Instruction), notOnly, 3) {
+				r.OK(name+":copy "+which, p.InstrPos(c.(ssa.Instruction)), "copied only on the !only edge")
+			} else {
+				r.Bad(name+":copy "+which, p.InstrPos(c.(ssa.Instruction)), "the includer's %s variables are copied even when `only` is given", which)
+			}
 		}
 	}
 	if !pubPriv[0] || !pubPriv[1] {
@@ -504,40 +509,55 @@ func ruleC11Only(p *Prog, a *Anchors, r *Report) {
 	}
 	// with-pairs: a MapUpdate into the include context inside a range over withPairs, not guarded by `only`
 	found := false
-	for _, b := range f.Blocks {
-		for _, in := range b.Instrs {
-			mu, ok := in.(*ssa.MapUpdate)
-			if !ok || !allFresh(p.Roots(mu.Map)) {
-				continue
-			}
-			found = true
-			onlyDep := Guarded(in, func(c ssa.Value, pol bool) bool { return pol && loadsField(c, "tagIncludeNode", "only") }) ||
-				Guarded(in, func(c ssa.Value, pol bool) bool { return !pol && loadsField(c, "tagIncludeNode", "only") })
-			if onlyDep {
-				r.Bad(name+":with-pairs", p.InstrPos(in), "the with-pairs are added only on one edge of the `only` test")
-			} else {
-				r.OK(name+":with-pairs", p.InstrPos(in), "with-pairs are stored into the fresh include context regardless of `only`")
-			}
-			// … and EVERY pair is stored, whatever it evaluates to: in the loop over the pairs each pass that evaluated
-			// its expression reaches the store before the next pass (a pair that is skipped, e.g. because its value is
-			// nil, lets the includer's variable of the same name show through)
-			if hdr := innermostLoopHeader(mu.Block()); hdr != nil {
-				var eval ssa.Instruction
-				for _, lb := range f.Blocks {
-					if !hdr.Dominates(lb) || !ReachableBlocks(lb)[hdr] {
-						continue
-					}
-					for _, li := range lb.Instrs {
-						if c, isC := li.(*ssa.Call); isC && c.Common().IsInvoke() && c.Common().Method.Name() == "Evaluate" {
-							eval = li
+	for _, g := range helpers {
+		for _, b := range g.Blocks {
+			for _, in := range b.Instrs {
+				mu, ok := in.(*ssa.MapUpdate)
+				if !ok {
+					continue
+				}
+				if g == f && !allFresh(p.Roots(mu.Map)) {
+					continue
+				}
+				// in a helper: its own fresh map that it hands back, or a parameter that is fresh where the helper is called
+				if g != f && !c11FreshContext(p, f, g, mu.Map) {
+					continue
+				}
+				found = true
+				onlyDep := guardedUp(p, f, in, func(c ssa.Value, pol bool) bool { return pol && loadsField(c, "tagIncludeNode", "only") }, 3) ||
+					guardedUp(p, f, in, func(c ssa.Value, pol bool) bool { return !pol && loadsField(c, "tagIncludeNode", "only") }, 3)
+				if onlyDep {
+					r.Bad(name+":with-pairs", p.InstrPos(in), "the with-pairs are added only on one edge of the `only` test")
+				} else {
+					r.OK(name+":with-pairs", p.InstrPos(in), "with-pairs are stored into the fresh include context regardless of `only`")
+				}
+				// … and EVERY pair is stored, whatever it evaluates to: in the loop over the pairs each pass that evaluated
+				// its expression reaches the store before the next pass (a pair that is skipped, e.g. because its value is
+				// nil, lets the includer's variable of the same name show through). The loop is the one around the store, in
+				// the helper that holds it; a store that a helper makes unconditionally is represented by the helper's call
+				store := c11LiftStore(p, f, in)
+				if store == nil {
+					r.Unk(name+":with-pairs:every", p.InstrPos(in), "the store of the pair sits in a helper that does not always make it, or that has several callers: whether every evaluated pair is stored is not decided")
+					continue
+				}
+				if hdr := innermostLoopHeader(store.Block()); hdr != nil {
+					var eval ssa.Instruction
+					for _, lb := range store.Parent().Blocks {
+						if !hdr.Dominates(lb) || !ReachableBlocks(lb)[hdr] {
+							continue
+						}
+						for _, li := range lb.Instrs {
+							if c, isC := li.(*ssa.Call); isC && c.Common().IsInvoke() && c.Common().Method.Name() == "Evaluate" {
+								eval = li
+							}
 						}
 					}
-				}
-				if eval != nil {
-					if MustPassFrom(eval.Block(), instrIndex(eval)+1, hdr.Instrs[0], func(x ssa.Instruction) bool { return x == ssa.Instruction(mu) }) {
-						r.OK(name+":with-pairs:every", p.InstrPos(in), "every evaluated pair is stored before the next one is looked at")
-					} else {
-						r.Bad(name+":with-pairs:every", p.InstrPos(in), "a pair can be evaluated and then skipped (the loop continues without storing it): its name stays what the includer's context says, e.g. `include \"x\" with user=visitor` shows the includer's `user` when visitor is nil")
+					if eval != nil {
+						if MustPassFrom(eval.Block(), instrIndex(eval)+1, hdr.Instrs[0], func(x ssa.Instruction) bool { return x == store }) {
+							r.OK(name+":with-pairs:every", p.InstrPos(in), "every evaluated pair is stored before the next one is looked at")
+						} else {
+							r.Bad(name+":with-pairs:every", p.InstrPos(in), "a pair can be evaluated and then skipped (the loop continues without storing it): its name stays what the includer's context says, e.g. `include \"x\" with user=visitor` shows the includer's `user` when visitor is nil")
+						}
 					}
 				}
 			}
@@ -583,35 +603,38 @@ func ruleC11Only(p *Prog, a *Anchors, r *Report) {
 					continue
 				}
 				key := p.FuncName(fn) + ":swallow"
-				ifEx := Guarded(ret, func(cnd ssa.Value, pol bool) bool {
+				// each of the conditions may be tested on the way to the return itself or inside a predicate function
+				// whose true result guards it (isTemplateMissing(e, name)): the predicate's parameters stand for the
+				// arguments of its call (sub)
+				ifEx := Guarded(ret, throughPredicates(p, func(cnd ssa.Value, pol bool, sub func(ssa.Value) ssa.Value) bool {
 					return pol && (loadsField(cnd, "tagIncludeNode", "ifExists") || isIfExistsLocal(cnd))
-				})
-				sender := Guarded(ret, func(cnd ssa.Value, pol bool) bool {
+				}))
+				sender := Guarded(ret, throughPredicates(p, func(cnd ssa.Value, pol bool, sub func(ssa.Value) ssa.Value) bool {
 					b, ok := cnd.(*ssa.BinOp)
 					if !ok || b.Op != token.EQL || !pol {
 						return false
 					}
-					s, isC := constString(b.Y)
+					s, isC := constString(sub(b.Y))
 					return isC && s == "fromfile" && loadsFieldAny(b.X, "Error", "Sender")
-				})
+				}))
 				// … and the missing file is the one that was asked for: the compile error of an existing template that
 				// itself includes a missing file has the same sender
 				nameArg := call.Common().Args[1]
-				thisFile := Guarded(ret, func(cnd ssa.Value, pol bool) bool {
+				thisFile := Guarded(ret, throughPredicates(p, func(cnd ssa.Value, pol bool, sub func(ssa.Value) ssa.Value) bool {
 					b, ok := cnd.(*ssa.BinOp)
 					if !ok || b.Op != token.EQL || !pol {
 						return false
 					}
 					for _, pr := range [][2]ssa.Value{{b.X, b.Y}, {b.Y, b.X}} {
-						if loadsFieldAny(pr[0], "Error", "Filename") && (pr[1] == nameArg || p.VN(pr[1]) == p.VN(nameArg)) {
+						if other := sub(pr[1]); loadsFieldAny(pr[0], "Error", "Filename") && (other == nameArg || p.VN(other) == p.VN(nameArg)) {
 							return true
 						}
 					}
 					return false
-				})
+				}))
 				// … and it is the absence of the file, not a failure to read one that is there: FromFile reports both with
 				// the same Sender and Filename, so the error's cause (OrigError) has to be looked at
-				cause := Guarded(ret, func(cnd ssa.Value, pol bool) bool {
+				cause := Guarded(ret, throughPredicates(p, func(cnd ssa.Value, pol bool, sub func(ssa.Value) ssa.Value) bool {
 					if b, ok := cnd.(*ssa.BinOp); ok && b.Op == token.EQL && pol {
 						return loadsFieldAny(stripConv(b.X), "Error", "OrigError") || loadsFieldAny(stripConv(b.Y), "Error", "OrigError")
 					}
@@ -619,7 +642,7 @@ func ruleC11Only(p *Prog, a *Anchors, r *Report) {
 						return true
 					}
 					return false
-				})
+				}))
 				if ifEx && sender && thisFile && !cause {
 					r.Bad(key, p.InstrPos(ret), "if_exists swallows every load error of the named file, also a failing read of a template that exists (FromFile gives both the same Sender and Filename): only the not-found cause may be ignored")
 					continue
